@@ -279,13 +279,71 @@ func C19(tier rt.Tier) int {
 		}()
 	}
 	wg.Wait()
+	// scale: a few LARGE trees (levels of tens of thousands of nodes, sizes that are not round): root against
+	// the reference, paths of the first/last 70 leaves and of every 197th leaf by index and by lookup
+	big := []int{32770, 70001}
+	if tier == rt.Thorough {
+		big = []int{16389, 32770, 40006, 65550, 70001, 131075}
+	}
+	var bwg sync.WaitGroup
+	for _, n := range big {
+		bwg.Add(1)
+		go func(n int) {
+			defer bwg.Done()
+			defer func() {
+				if r := recover(); r != nil {
+					rep.Violate(fmt.Sprintf("n=%d leaves (large tree): panic: %v", n, r), map[string]any{"n": n})
+				}
+			}()
+			ls := make([]string, n)
+			hs := make([]util.Hashable, n)
+			for i := range ls {
+				ls[i] = hhex(fmt.Sprintf("big-%d", i))
+				hs[i] = leaf(ls[i])
+			}
+			var mt util.MerkleTree
+			mt.ComputeTree(hs)
+			root := mt.GetRoot()
+			if want := refRoot(ls); root != want {
+				rep.Violate(fmt.Sprintf("n=%d leaves (large tree): root %s differs from the recursive reference root %s", n, root, want), map[string]any{"n": n})
+				return
+			}
+			checked := 0
+			for i := 0; i < n; i++ {
+				if !(i < 70 || i >= n-70 || i%197 == 0) {
+					continue
+				}
+				checked++
+				p := mt.GetPathByIndex(i)
+				if p.LeafIndex != i || !util.VerifyMerklePath(ls[i], p, root) || !mt.VerifyPath(leaf(ls[i]), p) {
+					rep.Violate(fmt.Sprintf("n=%d leaves (large tree): path of leaf %d does not verify against the root", n, i), map[string]any{"n": n, "index": i})
+					return
+				}
+				if q := mt.GetPath(leaf(ls[i])); q.LeafIndex != i || fmt.Sprint(q.Nodes) != fmt.Sprint(p.Nodes) {
+					rep.Violate(fmt.Sprintf("n=%d leaves (large tree): GetPath(leaf %d) differs from GetPathByIndex", n, i), map[string]any{"n": n, "index": i})
+					return
+				}
+				if j := (i + 1) % n; util.VerifyMerklePath(ls[j], p, root) {
+					rep.Violate(fmt.Sprintf("n=%d leaves (large tree): the path of leaf %d also verifies leaf %d", n, i, j), map[string]any{"n": n, "index": i})
+					return
+				}
+			}
+			mu.Lock()
+			paths += checked
+			evals += 3 * checked
+			total++
+			mu.Unlock()
+		}(n)
+	}
+	bwg.Wait()
+	rep.Set("large_trees", big)
 	rep.Set("evaluations", evals)
 	rep.Set("states", total)
 	rep.Set("transitions", paths)
 	rep.Set("traces_validated_against_impl", paths)
 	rep.Set("distinct_nontrivial", paths)
 	rep.Set("negative_verifications", negatives)
-	rep.Set("rule", fmt.Sprintf("every leaf count n = 1..%d with distinct 64-character leaf hashes, and n = 1..%d with leaf hash strings of uniform length 2, 62, 63, 65, 66, 96, 127, 128, 129, 200 (longer ones share their first 64 characters); every leaf index: path by index and by leaf lookup, verification by VerifyMerklePath and VerifyPath against a root that must equal an independent recursive reference root (own SHA3); the same path offered with every other leaf hash of the tree for n <= %d (structured neighbours, first/last/middle for larger n), with a foreign hash, with the sibling hash and with the root; export/import via GetTree/SetTree incl. rejected wrong leaf counts, also into a tree object that was used for another tree before; loads with a wrong leaf count are rejected and leave the object (fresh, loaded, re-used) answering as before; 'states' = tree sizes, 'transitions' = (n, index) pairs", maxN, smallN, allPairs))
+	rep.Set("rule", fmt.Sprintf("every leaf count n = 1..%d with distinct 64-character leaf hashes, and n = 1..%d with leaf hash strings of uniform length 2, 62, 63, 65, 66, 96, 127, 128, 129, 200 (longer ones share their first 64 characters); every leaf index: path by index and by leaf lookup, verification by VerifyMerklePath and VerifyPath against a root that must equal an independent recursive reference root (own SHA3); the same path offered with every other leaf hash of the tree for n <= %d (structured neighbours, first/last/middle for larger n), with a foreign hash, with the sibling hash and with the root; large trees (sizes in 'large_trees': root against the reference, paths of the first/last 70 and every 197th leaf); export/import via GetTree/SetTree incl. rejected wrong leaf counts, also into a tree object that was used for another tree before; loads with a wrong leaf count are rejected and leave the object (fresh, loaded, re-used) answering as before; 'states' = tree sizes, 'transitions' = (n, index) pairs", maxN, smallN, allPairs))
 	rep.Sample(map[string]any{"n": 5, "index": 4, "note": "odd level: last node paired with itself"})
 	rep.Sample(map[string]any{"n": 1, "index": 0})
 	return rep.Finish()
